@@ -1,6 +1,7 @@
 from vlib import Check
 
 TRUSTED = [
+    "tie (T), added: the statement lists of the functions this property's model was transcribed from are regenerated from /repo on every run (Gen/Stmts.lean) and pinned against the committed transcription source by the kernel-decided theorem source_as_modelled; the step from statements to model is by reading and is what the differential runs check",
     "Lean 4.33.0 kernel; axioms of every theorem audited to be within {propext, Classical.choice, Quot.sound}",
     "hand-written models Model/Rbc.lean (rbc.Receiver), Model/Dispatch.lean (handleMPC/handleAck/handleRBC/rbcMsg.Ack/rbcFilter/threadSafeRBC) — tied step by step by the harness components rbc, rbcsys (real rbc.Receiver instances) and disp (real Scheme.HandleMessage with an open session)",
     "wire expressions regenerated from the Go AST (Gen/Wire.lean, see C13)",
@@ -15,7 +16,7 @@ ASSUME = [
 
 def main():
     c = Check("C02")
-    c.prove(gen=["wire"])
+    c.prove(gen=["wire", "stmts"])
     c.correspond("rbcsys")
     c.correspond("rbc")
     c.correspond("disp")
